@@ -8,6 +8,7 @@ from __future__ import annotations
 import copy
 import json
 import random
+from collections import Counter
 import sys
 from contextlib import contextmanager
 from dataclasses import dataclass
@@ -25,7 +26,37 @@ class CustomParseError(Exception):
     """FailedParse-like: application exception with plain positional args (picklable)."""
 
 
+class FrozenError(Exception):
+    """An immutable exception (state in args only, attribute assignment refused) - picklable, raisable, chainable: the
+    interpreter sets __traceback__/__cause__/__context__ without going through __setattr__."""
+
+    __slots__ = ()
+
+    def __setattr__(self, name, value):
+        raise AttributeError(f"{type(self).__name__} is immutable")
+
+
+@dataclass(frozen=True, slots=True)
+class FrozenDataError(Exception):
+    """An exception declared as a frozen dataclass (a diagnostic record that is also raisable)."""
+
+    code: Any = None
+    n: Any = None
+    extra: Any = None
+
+
+class SignatureError(Exception):
+    """Own constructor signature; keeps args in step with it, so it pickles."""
+
+    def __init__(self, code=None, n=None, extra=None):
+        super().__init__(code, n, extra)
+        self.code = code
+
+
 EXC = {
+    "FrozenError": FrozenError,
+    "FrozenDataError": FrozenDataError,
+    "SignatureError": SignatureError,
     "ValueError": ValueError,
     "KeyError": KeyError,
     "OSError": OSError,
@@ -53,6 +84,7 @@ EXC = {
 CAPTURABLE = [
     "ValueError", "KeyError", "OSError", "AssertionError", "ZeroDivisionError", "IndexError",
     "UnicodeError", "StopIteration", "CustomParseError", "InterruptedError", "TimeoutError", "PermissionError", "EOFError", "MemoryError",
+    "FrozenError", "FrozenDataError", "SignatureError",
 ]
 SUPER = {
     "KeyError": "LookupError", "IndexError": "LookupError", "ZeroDivisionError": "ArithmeticError",
@@ -340,6 +372,20 @@ def gen_spec(seed: int, config: str | None = None) -> dict:
             p["exc"] = rng.choice(CAPTURABLE)
             p["raises"] = []
             spec["reraise"] = True
+    # payload lists as callers really have them: the same payload object listed twice, two payloads that compare equal,
+    # two different payloads that name the same path (a file processed under two option sets).  "One result per payload"
+    # is per list entry.  Drawn from a stream of its own so that the rest of the spec stays what it was.
+    dr = random.Random(derive(seed, "dups"))
+    if n >= 2 and dr.random() < 0.12:
+        for _ in range(dr.choice([1, 1, 2])):
+            j = dr.randrange(1, n)
+            i = dr.randrange(0, j)
+            if dr.random() < 0.5 or by_path:
+                if payloads[i].get("dup") or payloads[j].get("dup") or "path_of" in payloads[j]:
+                    continue
+                payloads[j] = dict(copy.deepcopy(payloads[i]), dup=dr.choice(["same", "equal"]))
+            elif "dup" not in payloads[j] and "dup" not in payloads[i]:
+                payloads[j]["path_of"] = payloads[i]["key"]
     return spec
 
 
@@ -368,7 +414,7 @@ def expected(spec: dict, p: dict):
         if p.get("nopickle"):
             out = Opaque(out)
         return canon(pick(out)), None
-    return canon(pick(None)), [p["exc"] if False else EXC[p["exc"]].__name__, canon(tuple(p["exc_args"]))]
+    return canon(pick(None)), [EXC[p["exc"]].__name__, canon(tuple(EXC[p["exc"]](*p["exc_args"]).args))]
 
 
 def canon(x):
@@ -393,8 +439,12 @@ def build_payloads(spec: dict):
             _LEGACY[name] = p
             out.append(path)
         return out
+    first = {}
     for p in spec["payloads"]:
-        path = Path(f"/sim/file{p['key']:02d}.txt")
+        if p.get("dup") == "same" and p["key"] in first:
+            out.append(first[p["key"]])  # the very same object, listed again
+            continue
+        path = Path(f"/sim/file{p.get('path_of', p['key']):02d}.txt")
         text = f"line {p['key']}\n// c\n\n"
         kw = dict(key=p["key"], behave=p["behave"], value=p["value"], exc=p["exc"],
                   exc_args=tuple(p["exc_args"]), raises_names=tuple(p["raises"]), ret=p.get("ret", "wrapped"), chain=p.get("chain"), deep=p.get("deep", 0),
@@ -404,6 +454,7 @@ def build_payloads(spec: dict):
             out.append(VisPayload(path=path, payload=text, **kw))
         else:
             out.append(PlainPayload(path=path, payload=text, **kw))
+        first.setdefault(p["key"], out[-1])
     return out
 
 
@@ -677,6 +728,11 @@ def run(spec: dict, decider: Decider, keep_events: bool = False) -> RunResult:
         keyof=lambda args: _key_of_task(args),
     )
     viol = None
+    mult = Counter(p["key"] for p in spec["payloads"])  # how often each payload is in the list
+    if any(v > 1 for v in mult.values()):
+        sim.probe("payload_listed_twice")
+    if any("path_of" in p for p in spec["payloads"]):
+        sim.probe("two_payloads_one_path")
     got: list[tuple] = []
     kept: list[tuple] = []
     raised = None
@@ -702,9 +758,8 @@ def run(spec: dict, decider: Decider, keep_events: bool = False) -> RunResult:
                     got.append(o)
                     if spec.get("consumer") == "keep":
                         kept.append((r, o))  # a consumer that collects the results and reads them when the loop is over
-                    keys = [g[0] for g in got]
-                    if len(set(keys)) != len(keys):
-                        raise Violation("duplicate", f"payload {o[0]} yielded twice", "dup")
+                    if sum(1 for g in got if g[0] == o[0]) > mult.get(o[0], 1):
+                        raise Violation("duplicate", f"payload {o[0]} yielded {sum(1 for g in got if g[0] == o[0])} times, listed {mult.get(o[0], 0)} times", "dup")
                     if len(got) > n:
                         raise Violation("count", f"{len(got)} results for {n} payloads", "extra")
             except execseam.Blocked as e:
@@ -737,7 +792,7 @@ def run(spec: dict, decider: Decider, keep_events: bool = False) -> RunResult:
         covered = {p["key"] for p in spec["payloads"] if is_captured(spec, p)}
         # a result the (simulated) worker could not pickle: the statement is silent about whether the loop then raises
         covered -= set(env.pickle_failed_keys)
-        all_covered = len(covered) == n
+        all_covered = len(covered) == len(truth)
         # content of whatever was yielded (both configurations)
         for key, out, exc in got:
             if key not in truth:
@@ -748,7 +803,7 @@ def run(spec: dict, decider: Decider, keep_events: bool = False) -> RunResult:
             if raised is not None:
                 raise Violation("raised", f"loop raised {type(raised).__name__}: {raised}", type(raised).__name__)
             if len(got) != n:
-                missing = sorted(set(truth) - {g[0] for g in got})
+                missing = sorted((mult - Counter(g[0] for g in got)).elements())
                 raise Violation("count", f"{len(got)} results for {n} payloads; missing {missing}", "lost")
             if seq_raised is not None:
                 raise Violation("sequential-raised", f"{type(seq_raised).__name__}: {seq_raised}", "seq")
@@ -814,8 +869,18 @@ def shrink_candidates(spec: dict):
     def with_payloads(new):
         s = copy.deepcopy(spec)
         s["payloads"] = copy.deepcopy(new)
-        for i, p in enumerate(s["payloads"]):
-            p["key"] = i
+        remap: dict = {}
+        for p in s["payloads"]:
+            if p["key"] not in remap:
+                remap[p["key"]] = len(remap)
+                p.pop("dup", None)  # the first of its kind in the list
+            p["key"] = remap[p["key"]]
+        for p in s["payloads"]:
+            if "path_of" in p:
+                if p["path_of"] in remap:
+                    p["path_of"] = remap[p["path_of"]]
+                else:
+                    del p["path_of"]
         s["faults"]["slow"] = [k for k in s["faults"]["slow"] if k < len(new)]
         return s
 
@@ -853,6 +918,10 @@ def shrink_candidates(spec: dict):
         if p.get("ret") == "raw":
             s = copy.deepcopy(spec)
             s["payloads"][i].pop("ret")
+            yield s
+        if "path_of" in p:
+            s = copy.deepcopy(spec)
+            s["payloads"][i].pop("path_of")
             yield s
         if p.get("chain"):
             s = copy.deepcopy(spec)
@@ -955,12 +1024,15 @@ def real_pool_run(spec: dict):
         gave_up = True  # a result that cannot be pickled: the loop may raise; what it yielded must still be right
     truth = {p["key"]: expected(spec, p) for p in spec["payloads"]}
     keys = [g[0] for g in got]
-    if len(set(keys)) != len(keys):
-        return f"duplicate keys {sorted(keys)}"
+    want = [p["key"] for p in spec["payloads"]]
+    if Counter(keys) - Counter(want):
+        return f"duplicate keys {sorted(keys)} for payloads {sorted(want)}"
     if gave_up:
-        truth = {k: v for k, v in truth.items() if k in keys}
-    if sorted(keys) != sorted(truth):
-        return f"keys {sorted(keys)} expected {sorted(truth)}"
+        want = [k for k in want if k in keys]
+        if Counter(want) - Counter(keys) and False:
+            pass
+    elif sorted(keys) != sorted(want):
+        return f"keys {sorted(keys)} expected {sorted(want)}"
     for key, out, exc in got:
         if (out, exc) != truth[key]:
             return f"payload {key}: got {(out, exc)} expected {truth[key]}"
